@@ -7,6 +7,7 @@ import BertE.Props.C06
 import BertE.Props.C07
 import BertE.Props.C09
 import BertE.Props.C11
+import BertE.Props.C13
 import BertE.Props.C14
 import BertE.Props.C17
 import BertE.Props.C18
